@@ -69,6 +69,14 @@ def gen_scenario(rng, strategy=None, n_gc=None, feasible=True, features=None, ma
             return t + datetime.timedelta(minutes=rng.choice([1, 2, interval // 2 or 1, interval - 1 or 1]))
         return t
 
+    def overdue():
+        # a fifth of the standing periods last 1-3 steps longer than announced: the vehicle is still connected (and may
+        # still need energy) at and after its estimated time of departure (seeded change C05-h2: balanced's fallback
+        # for overdue vehicles)
+        if rng.random() < 0.2:
+            return datetime.timedelta(minutes=interval * rng.choice([1, 2, 3]))
+        return datetime.timedelta(0)
+
     # vehicle types
     n_types = rng.randint(1, 2)
     tnames = []
@@ -127,7 +135,7 @@ def gen_scenario(rng, strategy=None, n_gc=None, feasible=True, features=None, ma
             dep = offgrid(cur + stand)
             veh["connected_charging_station"] = csid
             veh["estimated_time_of_departure"] = iso(dep)
-            cur = dep
+            cur = dep + overdue()
         first = True
         while cur < stop + datetime.timedelta(hours=2):
             if connected or not first:
@@ -151,7 +159,7 @@ def gen_scenario(rng, strategy=None, n_gc=None, feasible=True, features=None, ma
                 "start_time": iso(cur), "vehicle_id": vid, "event_type": "arrival",
                 "update": {"connected_charging_station": csid, "estimated_time_of_departure": iso(dep),
                            "desired_soc": rng.choice([0.8, 0.8, 1.0, 0.6]), "soc_delta": delta}})
-            cur = dep
+            cur = dep + overdue()
             connected = True
         comp["vehicles"][vid] = veh
     # fixed load / generation / batteries / signals per connector
